@@ -69,6 +69,9 @@ def make_context(mod):
     return (mod, importlib.import_module("trie.branches"), importlib.import_module("trie.exceptions"), BinRealizer())
 
 
+RZ = None  # the realizer of the current context (set by replay_one)
+
+
 def step(trie, ev, n, exc):
     key = bits_to_bytes(ev["k"])
     a = ev["a"]
@@ -88,6 +91,12 @@ def step(trie, ev, n, exc):
                 trie.set(key, b"")
         elif a == "delsub":
             trie.delete_subtrie(key)
+        elif a == "checkout":
+            enc, rh = RZ.node(ev["root"])
+            if enc is None or n % 2:
+                trie.root_hash = rh
+            else:
+                trie.root_node = enc
         else:
             raise MachineryError(f"unknown action {a}")
     except exc.NodeOverrideError:
@@ -172,7 +181,9 @@ def replay_line(obj, ctx, opts):
 
 
 def replay_one(obj, ctx, opts):
+    global RZ
     mod, branches, exc, rz = ctx
+    RZ = rz
     h, st = obj["h"], obj["st"]
     out = []
     from .hexary import FaultyDict, InjectedWriteError
